@@ -71,13 +71,16 @@
 (*     StripOnRedirect = TRUE  /repo since 7d8bea3 (checkRedirect drops a   *)
 (*                             forwarded Authorization when the host       *)
 (*                             changes)                                    *)
-(*     FoldCase = FALSE        authAllowed compares URL.Host with the       *)
-(*                             configured name case sensitively (known      *)
-(*                             finding C11-4); TRUE models its repair       *)
+(*     FoldCase = TRUE         /repo since f7f5652 (authAllowed compares    *)
+(*                             URL.Host with the configured name case       *)
+(*                             insensitively); FALSE = as found (C11-4),    *)
+(*                             C11_mc_case_asfound.cfg keeps its            *)
+(*                             counterexample                               *)
 (*     HonorsHost = FALSE      AuthCreds still ignores its host argument   *)
 (*                             (S3, known finding C11-1); TRUE models its  *)
 (*                             repair                                      *)
-(*     TRUE/TRUE/FALSE is the code as it is today (default of all          *)
+(*     SchemeBound, StripOnRedirect, FoldCase TRUE and HonorsHost FALSE    *)
+(*     is the code as it is today (default of all          *)
 (*     configs); all FALSE is the code as found, kept to explain the       *)
 (*     fixrev-C11-* seeds and the history of the findings                  *)
 (***************************************************************************)
@@ -86,7 +89,7 @@ EXTENDS AuthObl, Naturals, Sequences, FiniteSets, TLC
 CONSTANTS
   HonorsHost,       \* AuthCreds returns credentials only for the clientHost's own hostname (not in /repo: S3)
   SchemeBound,      \* no credentials on a http URL of a host configured for TLS (in /repo since 14e04da)
-  FoldCase,         \* authAllowed compares host names case insensitively (findings/C11-4.patch, not in /repo)
+  FoldCase,         \* authAllowed compares host names case insensitively (in /repo since f7f5652)
   StripOnRedirect,  \* Authorization is removed when a redirect leaves the host, also to a sub domain (since 7d8bea3)
   MaxFaults,        \* number of replies (registry or token server) that differ from the natural one
   Confs,            \* configurations explored
@@ -251,8 +254,9 @@ Msg(to, sch, secs, via) == Msgs(<<M(to, sch, secs, via)>>)
 \* how the credentials on a request to `to` were chosen (classification of a leak)
 Via(to, copied) ==
   IF copied THEN "copied"
-  ELSE IF to # H THEN "foreign-handler"
-  ELSE "own-handler"
+  ELSE IF to = H THEN "own-handler"
+  ELSE IF Canon(to) = H THEN "other-spelling"     \* handler keyed by another spelling of the clientHost's own name
+  ELSE "foreign-handler"
 
 (***************************************************************************)
 (* Sending                                                                 *)
@@ -550,6 +554,8 @@ NoLeak == leaks = {}
 \* the code as it is today (SchemeBound, StripOnRedirect, ~HonorsHost) leaks only through handlers that
 \* are keyed by a foreign host and filled with the clientHost's own credentials (S3)
 LeaksOnlyS3 == \A l \in leaks : l.via = "foreign-handler"
+\* (with FoldCase = FALSE, the code before f7f5652, LeaksOnlyS3 is violated: a handler keyed by a mixed-case
+\* spelling of the registry's own name sends its credentials over http, via = "other-spelling")
 \* the code as found leaked, but only through these three mechanisms; in particular a
 \* credential chosen by a handler that is keyed by the clientHost's own hostname never reaches
 \* another host (registries, mirror and upstream stay separated whatever the servers do)
